@@ -1,6 +1,7 @@
 CONSTANTS
   LitMax = 4096
   AppendMax = 104857600
+  NestMax = 1000
   Sizes = {0}
 INIT TraceInit
 NEXT TraceNext
